@@ -7,6 +7,10 @@ fn usage() -> ! {
 }
 
 fn main() {
+    // anyhow captures a backtrace for every error when RUST_BACKTRACE is set, which makes
+    // the (frequent, expected) Err results of the code under test ~20x slower.
+    std::env::remove_var("RUST_BACKTRACE");
+    std::env::remove_var("RUST_LIB_BACKTRACE");
     let args: Vec<String> = std::env::args().skip(1).collect();
     if args.is_empty() {
         usage();
